@@ -388,7 +388,16 @@ impl<'a> Gen<'a> {
     }
     let budget = SUBSIDY + fees;
     // duplicate of an earlier coinbase (same id, same outputs) when it fits
-    let cands: Vec<ATx> = self.coinbases.iter().filter(|c| c.outs.iter().map(|o| o.0).sum::<u64>() <= budget).cloned().collect();
+    // a duplicate coinbase must not share its id with an input of this block: Bitcoin applies the
+    // coinbase first (the inputs would then refer to the immature new outputs: invalid block), ord
+    // and the BIP apply it last
+    let spent_ids: Vec<u64> = txs.iter().flat_map(|t| t.ins.iter().map(|i| i.0)).collect();
+    let cands: Vec<ATx> = self
+      .coinbases
+      .iter()
+      .filter(|c| c.outs.iter().map(|o| o.0).sum::<u64>() <= budget && !spent_ids.contains(&c.id))
+      .cloned()
+      .collect();
     let cb = if !cands.is_empty() && self.rng.chance(1, 9) {
       self.dups += 1;
       self.rng.pick(&cands).clone()
@@ -519,7 +528,12 @@ pub fn gen_cases(rng: &mut Rng, tier: &str, prop: &str) -> Vec<Line> {
   for i in 0..n {
     let nblocks = if i % 10 == 0 { rng.range(1, 3) } else { rng.range(2, max_blocks) };
     let max_tx = *rng.pick(&[0u64, 2, 4, 6]);
-    let (chain, _) = gen_chain(rng, nblocks, max_tx);
+    let (mut chain, _) = gen_chain(rng, nblocks, max_tx);
+    // C17's model commits after every block; chains of the known class dup-spent-before-commit
+    // (schedule dependent content) are exercised under C01/C02 and by the corpus only
+    while prop == "C17" && crate::oracle::has_spent_duplicate(&Case { sched: Sched::default(), chain: chain.clone(), queries: Vec::new() }) {
+      chain = gen_chain(rng, nblocks, max_tx).0;
+    }
     let sched = gen_sched(rng, nblocks, prop);
     let queries = if prop == "C02" { gen_queries(rng, &chain) } else { Vec::new() };
     v.push(case_line(&Case { sched, chain, queries }));
